@@ -670,6 +670,11 @@ func tryReplay(o *Obligation, repo, scratch string) (string, bool) {
 			}
 		}
 	}
+	if !reproduced && c.fc != nil && len(c.fc.ReplayVia) > 0 {
+		t, ok := replayVia(o, repo, scratch)
+		rep.WriteString("\n--- replay through public entry points ---\n" + t)
+		return rep.String(), ok
+	}
 	fmt.Fprintf(&rep, "REPRODUCED=%v\n", reproduced)
 	return rep.String(), reproduced
 }
@@ -1028,12 +1033,126 @@ func replayVia(o *Obligation, repo, scratch string) (string, bool) {
 			fmt.Fprintf(&rep, "\ncorpus search through %s %s: no failing input (%s)\n", via, what, firstLines(grepLines(res, "VERIF-REPLAY|FAIL"), 3))
 		}
 	}
+	// reader functions: differential replay over delivery schedules (same bytes, different (n, err) sequences)
+	for _, via := range c.fc.ReplayVia {
+		obj := lookupFunc(pkg, via)
+		if obj == nil {
+			continue
+		}
+		vf := c.eng.ld.Prog.FuncValue(obj)
+		if vf == nil {
+			continue
+		}
+		src := scheduleTest(c, vf)
+		if src == "" {
+			continue
+		}
+		res := runReplayTest(c, repo, scratch, src)
+		if strings.Contains(res, "outcome=mismatch") || strings.Contains(res, "outcome=panic") {
+			fmt.Fprintf(&rep, "\ndelivery-schedule replay through %s: the same bytes delivered by a different legal io.Reader schedule give a different result:\n%s\n\ntest:\n%s\nREPRODUCED=true\n", via, firstLines(grepLines(res, "VERIF-REPLAY"), 8), src)
+			return rep.String(), true
+		}
+		fmt.Fprintf(&rep, "\ndelivery-schedule replay through %s: no difference found (%s)\n", via, firstLines(grepLines(res, "VERIF-REPLAY|FAIL"), 3))
+	}
 	rep.WriteString("REPRODUCED=false\n")
 	return rep.String(), false
 }
 
+// scheduleTest: for a function with one io.Reader parameter, compare its results on a plain reader with its results
+// on readers that deliver the same bytes one at a time, the last byte together with io.EOF, or with (0, nil) reads.
+func scheduleTest(c *FnCtx, fn *ssa.Function) string {
+	pkg := c.eng.ld.Pkg
+	qual := types.RelativeTo(pkg)
+	ri := -1
+	for i, p := range fn.Params {
+		if types.TypeString(p.Type(), qual) == "io.Reader" {
+			if ri >= 0 {
+				return ""
+			}
+			ri = i
+		}
+	}
+	if ri < 0 || fn.Signature.Recv() != nil {
+		return ""
+	}
+	var args []string
+	for i, p := range fn.Params {
+		if i == ri {
+			args = append(args, "r")
+			continue
+		}
+		if fn.Signature.Variadic() && i == len(fn.Params)-1 {
+			continue
+		}
+		args = append(args, "*new("+types.TypeString(p.Type(), qual)+")")
+	}
+	var sb strings.Builder
+	sb.WriteString("//go:build verif\n// +build verif\n\npackage " + pkg.Name() + "\n\nimport (\n\t\"fmt\"\n\t\"io\"\n\t\"strings\"\n\t\"testing\"\n)\n\n" + schedReaderSrc)
+	fmt.Fprintf(&sb, `func verifRunAll(r io.Reader) (out string) {
+	defer func() {
+		if p := recover(); p != nil {
+			out += fmt.Sprintf(" PANIC(%%v)", p)
+		}
+	}()
+	for i := 0; i < 6; i++ {
+		res := fmt.Sprint(verifCall(r))
+		out += "|" + res
+		if strings.Contains(res, "EOF") {
+			break
+		}
+	}
+	return out
+}
+
+func verifCall(r io.Reader) []interface{} {
+	%s
+}
+
+func TestVerifReplay(t *testing.T) {
+	docs := []string{"<a>1</a>", "<a>1</a><b>2</b>", "<a><b>x</b></a> <c/>", "{\"a\":1}", "{\"a\":\"x\"} {\"b\":2}", "{\"a\":\"x\\\\\"}{\"b\":2}", "{\"a\":{\"b\":\"}\"}}"}
+	for _, d := range docs {
+		want := verifRunAll(strings.NewReader(d))
+		for k, mk := range []func() io.Reader{
+			func() io.Reader { return &verifSchedReader{data: []byte(d)} },
+			func() io.Reader { return &verifSchedReader{data: []byte(d), eofWithData: true} },
+			func() io.Reader { return &verifSchedReader{data: []byte(d), zeroReads: true} },
+		} {
+			got := verifRunAll(mk())
+			if got != want {
+				fmt.Printf("VERIF-REPLAY outcome=mismatch doc=%%q schedule=%%d (0: one byte per Read, 1: last byte with io.EOF, 2: (0,nil) reads interspersed)\n   plain reader: %%s\n   this schedule: %%s\n", d, k, want, got)
+				return
+			}
+		}
+	}
+	fmt.Printf("VERIF-REPLAY outcome=same\n")
+}
+`, scheduleCallBody(fn, args))
+	return sb.String()
+}
+
+func scheduleCallBody(fn *ssa.Function, args []string) string {
+	n := fn.Signature.Results().Len()
+	var rs []string
+	for i := 0; i < n; i++ {
+		rs = append(rs, fmt.Sprintf("r%d", i))
+	}
+	call := fmt.Sprintf("%s(%s)", fn.Name(), strings.Join(args, ", "))
+	if n == 0 {
+		return call + "\n\treturn nil"
+	}
+	var conv []string
+	for i, r := range rs {
+		if _, isBytes := fn.Signature.Results().At(i).Type().Underlying().(*types.Slice); isBytes {
+			conv = append(conv, "string("+r+")")
+		} else {
+			conv = append(conv, r)
+		}
+	}
+	return strings.Join(rs, ", ") + " := " + call + "\n\treturn []interface{}{" + strings.Join(conv, ", ") + "}"
+}
+
 var ghostIntrinsicNames = []string{"verifBuf", "verifRdPos", "verifRdData", "verifRdEOF", "verifWritten", "verifTokPos", "verifTokDepth", "verifFresh", "verifFreshVal",
-	"verifRangeCount", "verifRangeIndex", "verifHeight", "verifIsNaN", "verifIsInf", "verifVisited", "verifLent", "verifMapsSameExcept", "verifMapSameExceptKey", "verifMapSameExceptKeys", "verifOldHas", "verifOldGet", "verifOldLen"}
+	"verifRangeCount", "verifRangeIndex", "verifHeight", "verifIsNaN", "verifIsInf", "verifVisited", "verifLent", "verifInfallibleWriter", "verifIsByteReader", "verifMapsSameExcept", "verifMapSameExceptKey", "verifMapSameExceptKeys", "verifOldHas", "verifOldGet", "verifOldLen"}
 
 // usesGhostIntrinsic: the clause mentions a ghost function that has no executable body (cannot be evaluated in a replay).
 func usesGhostIntrinsic(expr string) bool {
